@@ -270,6 +270,51 @@ def install(R):
         return SV("V", T.pjoin(eng.as_V(loc), T.VStr(z3.StringVal(crop_const(eng, "FNCT_NM")))))
     S["FnPath"] = fn_path
 
+    # ------------------------------------------------------------------ assumed models of stdlib file-system queries
+    def ext_isfile(eng, fr, p, args, kwargs, node):
+        return [Outcome("normal", fr.st, val=mk_bool(z3.Select(fr.st.ghost["FS_ex"].t, eng.as_V(args[0]))))]
+    R.externals["os.path.isfile"] = ext_isfile
+    R.externals["os.path.exists"] = ext_isfile
+
+    refind = z3.Function("re_findall", V, V, V)
+
+    def re_findall(eng, fr, args, node):
+        """re.findall(T.format(r"(\\d+)"), path)[0] parsed by int() inverts T.format(i) for a single-hole template T
+        (assumed model, probed against the real `re` in the thorough tier)."""
+        pat, x = args
+        pv, xv = eng.as_V(pat), eng.as_V(x)
+        if pat.meta and pat.meta.get("fmt"):
+            lit, fargs = pat.meta["fmt"]
+            a0 = fargs[0]
+            if a0.k == "str" and z3.is_string_value(a0.t) and a0.t.as_string() == "(\\d+)":
+                ensure_fmt_axioms(eng, lit)
+                f = fmt_fn(lit)
+                name = f"re_findall_inverts[{lit}]"
+                if all(a[0] != name for a in eng.axioms):
+                    d, i = z3.Const("d!", V), z3.Int("i!")
+                    m0 = T.sget(refind(pv, T.pjoin2(d, f(T.VInt(i)))), 0)
+                    eng.axioms.append((name, z3.ForAll([d, i], z3.Implies(i >= 0, z3.And(T.is_VStr(m0), T.int_of_str(T.sval(m0)) == i)),
+                                                       patterns=[refind(pv, T.pjoin2(d, f(T.VInt(i))))])))
+        return SV("V", refind(pv, xv), meta={"seq": True})
+    S["__re_findall__"] = re_findall
+
+    # ------------------------------------------------------------------ lazy iterators: map / chain.from_iterable
+    def map_hook(eng, fr, args, node):
+        if len(args) != 2:
+            return None
+        f, xs = args
+        spec = eng.iterspec(xs, fr)
+        return SV("py", {"lazy_map": (f, spec)})
+    S["__map__"] = map_hook
+
+    def chain_hook(eng, fr, args, node):
+        a = args[0]
+        if a.k == "py" and isinstance(a.t, dict) and "lazy_map" in a.t:
+            f, spec = a.t["lazy_map"]
+            return SV("py", {"chain_of_map": (f, spec)})
+        raise Unsupported("chain.from_iterable of something other than map(f, files)")
+    S["__chain__"] = chain_hook
+
     # ------------------------------------------------------------------ lemmas (proved once, instantiated by name)
     def lemma(name, vars_, premise, conclusion, note=""):
         R.lemmas[name] = dict(vars=vars_, premise=premise, conclusion=conclusion, note=note)
